@@ -32,6 +32,69 @@ type Attr struct {
 	Raw      string   `json:"raw"` // hex
 	Value    string   `json:"value"`
 	ValueRes Res      `json:"value_res"`
+	// typed view of the ReadValue result (one of the three is set)
+	Nums   []float64 `json:"-"`
+	IsInt  bool      `json:"-"`
+	Ints   []int64   `json:"-"` // exact integers when IsInt (unsigned values above MaxInt64 are in Uints)
+	Uints  []uint64  `json:"-"`
+	Strs   []string  `json:"-"`
+	HasStr bool      `json:"-"`
+}
+
+// typed fills the typed view from a ReadValue result.
+func (a *Attr) typed(v interface{}) {
+	addI := func(x int64) { a.IsInt = true; a.Ints = append(a.Ints, x); a.Uints = append(a.Uints, uint64(x)); a.Nums = append(a.Nums, float64(x)) }
+	addU := func(x uint64) { a.IsInt = true; a.Ints = append(a.Ints, int64(x)); a.Uints = append(a.Uints, x); a.Nums = append(a.Nums, float64(x)) }
+	switch x := v.(type) {
+	case int8:
+		addI(int64(x))
+	case int16:
+		addI(int64(x))
+	case int32:
+		addI(int64(x))
+	case int64:
+		addI(x)
+	case uint8:
+		addU(uint64(x))
+	case uint16:
+		addU(uint64(x))
+	case uint32:
+		addU(uint64(x))
+	case uint64:
+		addU(x)
+	case []int32:
+		for _, e := range x {
+			addI(int64(e))
+		}
+	case []int64:
+		for _, e := range x {
+			addI(e)
+		}
+	case []uint32:
+		for _, e := range x {
+			addU(uint64(e))
+		}
+	case []uint64:
+		for _, e := range x {
+			addU(e)
+		}
+	case float32:
+		a.Nums = append(a.Nums, float64(x))
+	case float64:
+		a.Nums = append(a.Nums, x)
+	case []float32:
+		for _, e := range x {
+			a.Nums = append(a.Nums, float64(e))
+		}
+	case []float64:
+		a.Nums = append(a.Nums, x...)
+	case string:
+		a.HasStr = true
+		a.Strs = []string{x}
+	case []string:
+		a.HasStr = true
+		a.Strs = x
+	}
 }
 
 type Obj struct {
@@ -61,6 +124,7 @@ type Obj struct {
 
 	Compound    []string `json:"compound,omitempty"` // canonical rendering per element
 	CompoundRes Res      `json:"compound_res"`
+	CompoundRaw []map[string]interface{} `json:"-"`
 
 	Attrs    []Attr `json:"attrs,omitempty"`
 	AttrsRes Res    `json:"attrs_res"`
@@ -83,6 +147,50 @@ func (d *Dump) Get(path string) *Obj {
 		}
 	}
 	return d.byPath[path]
+}
+
+// Resolve finds the object for a path even when Walk did not descend into a group again
+// under that path (a group reached through a second hard link is listed with its members'
+// names but walked only once): the remaining components are followed from the place where
+// the same group (by identity) was walked.
+func (d *Dump) Resolve(path string) *Obj {
+	if o := d.Get(path); o != nil {
+		return o
+	}
+	if o := d.Get(strings.TrimSuffix(path, "/") + "/"); o != nil {
+		return o
+	}
+	walked := map[uint64]string{} // group identity -> first path (with trailing slash) whose members were walked
+	for _, o := range d.Objects {
+		if o.Kind == "group" && o.Addr != 0 {
+			if _, ok := walked[o.Addr]; !ok {
+				walked[o.Addr] = o.Path
+			}
+		}
+	}
+	parts := strings.Split(strings.Trim(path, "/"), "/")
+	cur := "/"
+	for i, part := range parts {
+		next := cur + part
+		o := d.Get(next + "/")
+		if o == nil {
+			o = d.Get(next)
+		}
+		if o == nil {
+			return nil
+		}
+		if i == len(parts)-1 {
+			return o
+		}
+		if o.Kind != "group" {
+			return nil
+		}
+		cur = o.Path
+		if first, ok := walked[o.Addr]; ok && o.Addr != 0 {
+			cur = first
+		}
+	}
+	return nil
 }
 
 // Paths returns all object paths in walk order (duplicates preserved).
@@ -211,6 +319,7 @@ func attrsOf(get func() ([]*core.Attribute, error)) ([]Attr, Res) {
 					return err
 				}
 				da.Value = canonValue(v)
+				da.typed(v)
 				return nil
 			})
 			out = append(out, da)
@@ -276,6 +385,7 @@ func File(path string, opt Options) *Dump {
 		switch x := it.obj.(type) {
 		case *hdf5.Group:
 			o.Kind = "group"
+			o.Addr = hdf5.VerifGroupIdentity(x)
 			for _, ch := range x.Children() {
 				if ch == nil {
 					o.Children = append(o.Children, "<nil child>")
@@ -340,6 +450,9 @@ func File(path string, opt Options) *Dump {
 					return err
 				}
 				o.Compound = compoundCanon(v)
+				for _, e := range v {
+					o.CompoundRaw = append(o.CompoundRaw, map[string]interface{}(e))
+				}
 				return nil
 			})
 		case *hdf5.NamedDatatype:
